@@ -115,6 +115,16 @@ def draw_settings(ch, label, legacy=True):
         d["useExtendedMasterSecret"] = False
     elif e == 2:
         d["requireExtendedMasterSecret"] = True
+    cc = ch.draw(8, label + ".ccomp?")
+    if cc in (1, 2):
+        from tlslite import handshakesettings as _hs
+        recv = list(_hs.ALL_COMPRESSION_ALGOS_RECEIVE)
+        opts = [list(reversed(recv)), recv[-1:], recv[:1], []]
+        d["certificate_compression_receive"] = opts[
+            ch.draw(len(opts), label + ".ccrecv")]
+    elif cc == 3:
+        d["certificate_compression_send"] = [[], ["zlib"]][
+            ch.draw(2, label + ".ccsend")]
     if ch.draw(4, label + ".rsl?") == 1:
         d["record_size_limit"] = [None, 64, 512, 16384][
             ch.draw(4, label + ".rsl")]
